@@ -29,7 +29,7 @@ import threading
 from collections import Counter
 
 from harness import tlc, xl
-from harness.checks.c10 import brief, mismatch, show, text_of, py_variants
+from harness.checks.c10 import JVM, brief, mismatch, show, text_of, py_variants
 from harness.evidence import Verdict
 
 PID = 'C02'
@@ -299,7 +299,7 @@ def run_exhaustive(v, name, maxlen, invariants, workers=8, timeout=1500):
         with open(cfg, 'w') as f:
             f.write(cfg_text(name, maxlen, 1, invariants))
     res = tlc.run('MC_Formula', cfg, spec_dir=tlc.SPEC, workers=workers,
-                  timeout=timeout, heap='6g')
+                  timeout=timeout, heap='6g', env=JVM)
     if not res.ok:
         raise tlc.MachineryFailure(
             f'Formula model ({name}, {maxlen} tokens) violates {res.violated}:\n'
@@ -332,7 +332,7 @@ def run_simulation(v, maxlen, minexport, num, seed, timeout=600):
                               'Export']))
     res = tlc.run('MC_Formula', cfg, spec_dir=tlc.SPEC, workers=4,
                   simulate=dict(num=num), depth=maxlen + 2, seed=seed,
-                  timeout=timeout, heap='4g')
+                  timeout=timeout, heap='4g', env=JVM)
     if not res.ok:
         raise tlc.MachineryFailure(
             f'Formula model (simulation, {maxlen} tokens) violates {res.violated}:\n'
@@ -513,7 +513,7 @@ def replay(path):
         rec = json.load(f)
     case = rec['case']
     from pycel.excelformula import ExcelFormula
-    res = tlc.run('MC_Formula', 'Formula_lit.cfg', workers=1, timeout=600)
+    res = tlc.run('MC_Formula', 'Formula_lit.cfg', workers=1, timeout=600, env=JVM)
     tables = [x['tables'] for x in res.json if 'tables' in x][0]
     env = {k: py_variants(val)[0] for k, val in tables['envs'][case['env']].items()}
     f = case['formula']
